@@ -473,7 +473,7 @@ func ruleShebangLine(c *Ctx) {
 			return
 		}
 		for _, cd := range g.CondsAtInstr(in) {
-			if b, ok := cd.V.(*ssa.BinOp); ok && b.Op == token.EQL && cd.Sense {
+			if b, ok := cd.V.(*ssa.BinOp); ok && eqHolds(b, cd) {
 				if k, ok := constInt(b.Y); ok && k == '\n' {
 					gives = true
 				}
@@ -1204,7 +1204,7 @@ func ruleGetStackLevel(c *Ctx) {
 		n++
 		exact := false
 		for _, cd := range g.CondsAtInstr(in) {
-			if b, ok := cd.V.(*ssa.BinOp); ok && b.Op == token.EQL && cd.Sense {
+			if b, ok := cd.V.(*ssa.BinOp); ok && eqHolds(b, cd) {
 				if k, ok := constInt(b.Y); ok && k == 0 {
 					if _, isPhi := stripConv(b.X).(*ssa.Phi); isPhi {
 						exact = true
@@ -1351,7 +1351,7 @@ func ruleApiHoles(c *Ctx) {
 			guarded := false
 			for _, cd := range g.CondsAtInstr(cl) {
 				if b, ok := cd.V.(*ssa.BinOp); ok {
-					if k, ok := constInt(b.Y); ok && k == 0 && ((b.Op == token.EQL && !cd.Sense) || (b.Op == token.NEQ && cd.Sense) || (b.Op == token.GTR && cd.Sense)) {
+					if k, ok := constInt(b.Y); ok && k == 0 && ((neHolds(b, cd)) || (b.Op == token.NEQ && cd.Sense) || (b.Op == token.GTR && cd.Sense)) {
 						guarded = true
 					}
 				}
@@ -2223,7 +2223,7 @@ func ruleTableArgs(c *Ctx) {
 					continue
 				}
 				for _, gc := range callsTo(fn, get) {
-					if (b.X == ssa.Value(gc) || b.Y == ssa.Value(gc)) && strings.Contains(vkey(b), "LNil") && ((b.Op == token.NEQ && cd.Sense) || (b.Op == token.EQL && !cd.Sense)) {
+					if (b.X == ssa.Value(gc) || b.Y == ssa.Value(gc)) && strings.Contains(vkey(b), "LNil") && ((b.Op == token.NEQ && cd.Sense) || (neHolds(b, cd))) {
 						guard = true
 					}
 				}
@@ -3270,7 +3270,7 @@ func ruleReadBounded(c *Ctx) {
 					continue
 				}
 				isNil := func(v ssa.Value) bool { k, ok := v.(*ssa.Const); return ok && k.IsNil() }
-				if (isNil(b.X) || isNil(b.Y)) && ((b.Op == token.EQL && cd.Sense) || (b.Op == token.NEQ && !cd.Sense)) {
+				if (isNil(b.X) || isNil(b.Y)) && ((eqHolds(b, cd)) || (b.Op == token.NEQ && !cd.Sense)) {
 					errNil = true
 				}
 			}
@@ -3329,7 +3329,7 @@ func ruleReadBounded(c *Ctx) {
 				}
 				_, l1 := loadsField(b.X, readerF)
 				_, l2 := loadsField(b.Y, readerF)
-				if (l1 || l2) && ((b.Op == token.NEQ && cd.Sense) || (b.Op == token.EQL && !cd.Sense)) {
+				if (l1 || l2) && ((b.Op == token.NEQ && cd.Sense) || (neHolds(b, cd))) {
 					guarded = true
 				}
 			}
@@ -4709,7 +4709,7 @@ func ruleSetlistBatchNumber(c *Ctx) {
 	if fn == nil {
 		return
 	}
-	fpfG, _ := p.SPkg("lua").Members["FieldsPerFlush"].(*ssa.Global)
+	fpfG := p.Global("lua", "FieldsPerFlush")
 	if fpfG == nil {
 		c.und(R, "compileTableExpr:batch-number-from-the-items-stored-before", p.pos(fn.Pos()), "FieldsPerFlush not found")
 		return
@@ -4806,7 +4806,7 @@ func ruleNoIntegerDivisionByUnknown(c *Ctx) {
 				if !isK || k != 0 || vkey(stripConv(cmp.X)) != vkey(stripConv(b.Y)) {
 					continue
 				}
-				if (cmp.Op == token.NEQ && cd.Sense) || (cmp.Op == token.EQL && !cd.Sense) || (cmp.Op == token.GTR && cd.Sense) {
+				if (cmp.Op == token.NEQ && cd.Sense) || (neHolds(cmp, cd)) || (cmp.Op == token.GTR && cd.Sense) {
 					nonzero = true
 				}
 			}
